@@ -525,6 +525,17 @@ where
             "NormalMutation" => mutation::NormalMutation::new(0.1, rm),
             "UniformMutation" => mutation::UniformMutation::new(0.1, rm),
             "PartialRandomSpread" => mutation::PartialRandomSpread::new(rm),
+            // repair AFTER evaluation: leave the domain, evaluate, then repair the evaluated individuals
+            "Saturation_after_eval" | "Toroidal_after_eval" | "Mirror_after_eval" | "CompleteOneTailedNormalCorrection_after_eval" => {
+                use mahf::components::{boundary, evaluation};
+                let repair: Box<dyn Component<P>> = match c {
+                    "Saturation_after_eval" => boundary::Saturation::new(),
+                    "Toroidal_after_eval" => boundary::Toroidal::new(),
+                    "Mirror_after_eval" => boundary::Mirror::new(),
+                    _ => boundary::CompleteOneTailedNormalCorrection::new(),
+                };
+                mahf::components::Block::new([mutation::NormalMutation::new(p["dev"].as_f64().unwrap_or(1.0), rm), evaluation::PopulationEvaluator::new(), repair])
+            }
             other => return Err(eyre::eyre!("unknown real component {other}")),
         };
         return component_loop(initialization::RandomSpread::new(u(p, "popsize")), component, p, n);
@@ -709,7 +720,8 @@ pub fn run_spec(out: &mut Out, run: u64, spec: &Value) {
     }
     match prob["kind"].as_str().unwrap() {
         "real" => {
-            let problem = RealProblem::new(prob["f"].as_u64().unwrap_or(0) as u8, prob["dim"].as_u64().unwrap() as usize, prob["lo"].as_f64().unwrap(), prob["hi"].as_f64().unwrap());
+            let mut problem = RealProblem::new(prob["f"].as_u64().unwrap_or(0) as u8, prob["dim"].as_u64().unwrap() as usize, prob["lo"].as_f64().unwrap(), prob["hi"].as_f64().unwrap());
+            problem.hetero = prob["hetero"].as_u64() == Some(1);
             go!(problem, real_template::<RealProblem>(name, params, n), super::templates_extra::real_extra(name, params))
         }
         "bits" => {
